@@ -29,14 +29,16 @@ def run(tier):
         o = os.path.join(wd, "vec_%s.json" % cfg)
         conform(cfg, ["prims-vectors", vf, o])
         _merge(ck, json.load(open(o)), "" if cfg == "stable" else "[%s] " % cfg)
-    for s in range(600 if thorough else 1):
+    for s in range(1500 if thorough else 1):
         o = os.path.join(wd, "sweep.json")
         conform("stable", ["prims-sweep-c12", o, ck.seed + s])
         _merge(ck, json.load(open(o)), "")
-    for cfg in ["nightly", RELEASE]:
-        o = os.path.join(wd, "sweep_%s.json" % cfg)
-        conform(cfg, ["prims-sweep-c12", o, ck.seed])
-        _merge(ck, json.load(open(o)), "[%s] " % cfg)
+    # thorough: the other build configurations get their own seeds too (nightly-only containers, SIMD BLAKE2b, release overflow semantics)
+    for cfg in ["nightly", RELEASE] + (["simd"] if thorough else []):
+        for s in range(60 if thorough else 1):
+            o = os.path.join(wd, "sweep_%s.json" % cfg)
+            conform(cfg, ["prims-sweep-c12", o, ck.seed + 1000 * (s > 0) + s])
+            _merge(ck, json.load(open(o)), "[%s] " % cfg)
     if not ck.cov["distinct_nontrivial"]:
         ck.cov["distinct_nontrivial"] = len(jobs) + 49 * 10
     ck.cov["rule"] = ("%d (id, length) vectors evaluated by TLC from spec/ref/Kdf.tla; dryoc = libsodium on all 49 accepted lengths x ids {0,1,2,255,256,2^32,2^63,2^64-2,2^64-1,random} x 4 master keys/contexts; "
